@@ -725,6 +725,12 @@ impl MemberOf {
                 (Some(pre_m), Some(post_m)) => {
                     // Show only the *changed* uuids for leaf resolution.
                     affected_uuids.extend(pre_m.symmetric_difference(post_m));
+                    // A group that leaves (or enters) the recycle bin changes the memberships
+                    // of ALL of its members even though its member set is unchanged: on revive
+                    // they must regain memberof/directmemberof of this group.
+                    if pre.mask_recycled_ts().is_some() != post.mask_recycled_ts().is_some() {
+                        affected_uuids.extend(post_m);
+                    }
                 }
                 (Some(members), None) | (None, Some(members)) => {
                     // Doesn't matter what order, just that they are affected
